@@ -587,6 +587,150 @@ theorem c18_url_rule (suites : List Suite) (reg : List (Str × Suite)) (hc : Pri
     have hk' : hc.wsKey = [] := by simpa using hk
     exact ⟨fun _ => rfl, fun _ c => absurd hk' c⟩
 
+/-! ### the per-service keys of an identity, asked for by name (network/struct.go:213-258) -/
+
+private theorem find_of_mem_nodup : ∀ {l : List SvcId}, (l.map (·.name)).Nodup → ∀ {s : SvcId}, s ∈ l →
+    l.find? (fun x => x.name == s.name) = some s
+  | [], _, _, hs => by cases hs
+  | x :: r, hn, s, hs => by
+    simp only [List.map_cons, List.nodup_cons, List.mem_map, not_exists, not_and] at hn
+    rcases List.mem_cons.mp hs with rfl | hs'
+    · simp
+    · have hne : (x.name == s.name) = false := by
+        simp only [beq_eq_false_iff_ne, ne_eq]; exact fun e => hn.1 s hs' e.symm
+      rw [List.find?_cons, hne]
+      exact find_of_mem_nodup hn.2 hs'
+
+private theorem find_none_of_absent {l : List SvcId} {name : Str} (h : ∀ s ∈ l, s.name ≠ name) :
+    l.find? (fun x => x.name == name) = none := by
+  simp only [List.find?_eq_none, beq_iff_eq]
+  exact h
+
+private theorem any_of_mem {l : List SvcId} {s : SvcId} (hs : s ∈ l) : l.any (fun x => x.name == s.name) = true := by
+  simp only [List.any_eq_true, beq_iff_eq]
+  exact ⟨s, hs, rfl⟩
+
+private theorem any_false_of_absent {l : List SvcId} {name : Str} (h : ∀ s ∈ l, s.name ≠ name) :
+    l.any (fun x => x.name == name) = false := by
+  simp only [List.any_eq_false, beq_iff_eq]
+  exact h
+
+/-- **c18_accessor_entry**: in an identity whose service entries have distinct names — any number of entries, in
+any order — asking for the name of an entry gives exactly that entry's keys, and both `Has…` functions say yes.
+Falsified by a look-up that compares something else than the exact name (folded case, a prefix, the suite), that
+returns the server's own key for the last entry (loop bound), or that returns the neighbour's key. -/
+theorem c18_accessor_entry (si : ServerId) (hn : (si.services.map (·.name)).Nodup) (s : SvcId) (hs : s ∈ si.services) :
+    si.servicePublic s.name = s.pub ∧ si.servicePrivate s.name = some s.priv ∧
+    si.hasServicePublic s.name = true ∧ si.hasServiceKeyPair s.name = true := by
+  simp only [ServerId.servicePublic, ServerId.servicePrivate, ServerId.hasServicePublic, ServerId.hasServiceKeyPair,
+    find_of_mem_nodup hn hs, any_of_mem hs, and_self]
+
+/-- **c18_accessor_absent**: a name that is not the name of an entry gets the server's own keys (its private key
+where one is known), and both `Has…` functions say no — in particular for names that differ from an entry's name
+only in letter case or are a prefix of it. -/
+theorem c18_accessor_absent (si : ServerId) (name : Str) (h : ∀ s ∈ si.services, s.name ≠ name) :
+    si.servicePublic name = si.pub ∧ si.servicePrivate name = si.priv ∧
+    si.hasServicePublic name = false ∧ si.hasServiceKeyPair name = false := by
+  simp only [ServerId.servicePublic, ServerId.servicePrivate, ServerId.hasServicePublic, ServerId.hasServiceKeyPair,
+    find_none_of_absent h, any_false_of_absent h, and_self]
+
+/-- **c18_accessor_order_independent**: what the accessors answer does not depend on the order of the entries
+(distinct names): two identities that differ only in that order answer every question alike.  (This is why the
+map-order defect changed roster identifiers but never a key handed to a service.) -/
+theorem c18_accessor_order_independent (si si' : ServerId) (hp : si.services.Perm si'.services)
+    (hn : (si.services.map (·.name)).Nodup) (hpub : si.pub = si'.pub) (hpriv : si.priv = si'.priv) (name : Str) :
+    si.servicePublic name = si'.servicePublic name ∧ si.servicePrivate name = si'.servicePrivate name ∧
+    si.hasServicePublic name = si'.hasServicePublic name ∧ si.hasServiceKeyPair name = si'.hasServiceKeyPair name := by
+  have hn' : (si'.services.map (·.name)).Nodup := (hp.map _).nodup_iff.mp hn
+  by_cases hex : ∃ s ∈ si.services, s.name = name
+  · obtain ⟨s, hs, rfl⟩ := hex
+    have h1 := c18_accessor_entry si hn s hs
+    have h2 := c18_accessor_entry si' hn' s (hp.subset hs)
+    simp only [h1, h2, and_self]
+  · have ha : ∀ s ∈ si.services, s.name ≠ name := fun s hs e => hex ⟨s, hs, e⟩
+    have ha' : ∀ s ∈ si'.services, s.name ≠ name := fun s hs e => hex ⟨s, hp.symm.subset hs, e⟩
+    have h1 := c18_accessor_absent si name ha
+    have h2 := c18_accessor_absent si' name ha'
+    simp only [h1, h2, hpub, hpriv, and_self]
+
+/-- the entries the readers produce: every entry of the file that yields an identity, each once -/
+private theorem parseServices_mem {reg : List (Str × Suite)} {entries : List SvcCfg} {svcs : List SvcId}
+    (hd : DistinctNames entries) (h : parseServices reg entries = some svcs) :
+    (svcs.map (·.name)).Nodup ∧ ∀ sid, sid ∈ svcs ↔ ∃ c ∈ entries, parseServiceIdentity reg c = .ok sid := by
+  unfold parseServices at h
+  rw [collect_eq] at h
+  by_cases ha : entries.any (panics reg) = true
+  · simp [ha] at h
+  · simp only [ha, Bool.false_eq_true, if_false, Option.map_some, Option.some.injEq] at h
+    subst h
+    refine ⟨((sortServices_perm _).map _).nodup_iff.mpr (filterMap_names_nodup hd), fun sid => ?_⟩
+    rw [(sortServices_perm _).mem_iff, List.mem_filterMap]
+    constructor
+    · rintro ⟨c, hc, hok⟩; exact ⟨c, hc, okOf_some hok⟩
+    · rintro ⟨c, hc, hok⟩; exact ⟨c, hc, by simp [okOf, hok]⟩
+
+/-- **c18_service_keys_from_file** (group files and private configurations alike): when the `Services` tables of a
+server (distinct table names — they are map keys) yield the identity's service entries, then for every table `c`
+that is accepted (`parseServiceIdentity` = the registered suite, a decodable key pair) `ServicePublic(c.name)` /
+`ServicePrivate(c.name)` are the keys that table carries, and a name no accepted table has gets the server's own
+keys — whatever the iteration order of the map was, however many tables there are. -/
+theorem c18_service_keys_from_file (reg : List (Str × Suite)) (entries : List SvcCfg) (si : ServerId)
+    (hd : DistinctNames entries) (h : parseServices reg entries = some si.services) :
+    (∀ c ∈ entries, ∀ sid, parseServiceIdentity reg c = .ok sid →
+        si.servicePublic c.name = sid.pub ∧ si.servicePrivate c.name = some sid.priv ∧ si.hasServiceKeyPair c.name = true) ∧
+    (∀ name, (∀ c ∈ entries, c.name = name → ∀ sid, parseServiceIdentity reg c ≠ .ok sid) →
+        si.servicePublic name = si.pub ∧ si.servicePrivate name = si.priv ∧ si.hasServicePublic name = false) := by
+  obtain ⟨hn, hm⟩ := parseServices_mem hd h
+  constructor
+  · intro c hc sid hok
+    have hs : sid ∈ si.services := (hm sid).mpr ⟨c, hc, hok⟩
+    have hname : sid.name = c.name := okOf_name (reg := reg) (by simp [okOf, hok])
+    have := c18_accessor_entry si hn sid hs
+    rw [hname] at this
+    exact ⟨this.1, this.2.1, this.2.2.2⟩
+  · intro name hno
+    have ha : ∀ s ∈ si.services, s.name ≠ name := by
+      intro s hs e
+      obtain ⟨c, hc, hok⟩ := (hm s).mp hs
+      have hname : s.name = c.name := okOf_name (reg := reg) (by simp [okOf, hok])
+      exact hno c hc (by rw [← hname, e]) s hok
+    have := c18_accessor_absent si name ha
+    exact ⟨this.1, this.2.1, this.2.2.1⟩
+
+/-- the premise of `c18_service_keys_from_file` holds for what the two readers return -/
+theorem c18_readers_services (suites : List Suite) (reg : List (Str × Suite)) :
+    (∀ (s : ServerToml) (si : ServerId), toServerIdentity suites reg s = .ok si → parseServices reg s.services = some si.services) ∧
+    (∀ (hc : PrivCfg) (si : ServerId), getServerIdentity suites reg hc = .ok si → parseServices reg hc.services = some si.services) := by
+  constructor
+  · intro s si h
+    obtain ⟨S, svcs, _, _, hp, hsi⟩ := tsi_ok h
+    rw [hsi]; exact hp
+  · intro hc si h
+    unfold getServerIdentity at h
+    split at h; · cases h
+    split at h; · cases h
+    split at h; · cases h
+    split at h; · cases h
+    rename_i svcs hp
+    simp only at h
+    split at h
+    · split at h
+      · cases h; exact hp
+      · split at h
+        · cases h
+        · cases h; exact hp
+    · cases h; exact hp
+
+/-- non-vacuity and the premise: with two entries of one name (not a map) the second is invisible -/
+example :
+    let a : SvcId := { name := [97], suite := [], pub := [1], priv := [2] }
+    let b : SvcId := { name := [98], suite := [], pub := [3], priv := [4] }
+    let a2 : SvcId := { name := [97], suite := [], pub := [5], priv := [6] }
+    let si : ServerId := { pub := [9], ptype := 0, services := [a, b], address := [], description := [], url := [], priv := none }
+    si.servicePublic [98] = [3] ∧ si.servicePublic [66] = [9] ∧ si.servicePrivate [66] = none ∧ si.hasServiceKeyPair [98] = true ∧
+    ({ si with services := [a, b, a2] } : ServerId).servicePublic [97] = [1] := by
+  decide
+
 /-! ### what was read stays what was read: rosters made from parts of a group's list
 
 `Model/C18Slices.lean`: slices over a heap of arrays, `onet.NewRoster` (copies its argument into a fresh array) and
